@@ -14,14 +14,6 @@ set_option maxRecDepth 100000
 namespace Wbxml.Props.C03
 open Wbxml Wbxml.Model Wbxml.Spec Wbxml.Lemmas.EncW Wbxml.Lemmas.ParseSer
 
-/-- The default reader of `wbxml_tree_from_wbxml`. -/
-def pcfgOf (main : List Lang) (forced metaCs : Nat) : PCfg :=
-  { main := main, langForced := forced, metaCharset := metaCs }
-
-theorem charsets_ok (main : List Lang) (forced metaCs : Nat) (cs : Nat) (h : cs = 3 ∨ cs = 106) :
-    (pcfgOf main forced metaCs).charsets.contains cs = true := by
-  rcases h with rfl | rfl <;> simp [pcfgOf]
-
 /-- **`rt_header`.** For EVERY tree the encoder accepts: the output starts with a header `hd` of
     the requested version announcing UTF-8, and whenever `wbxml_tree_from_wbxml` accepts the
     output under a reader configuration for which `hd` selects the tree's language (numeric or
@@ -119,6 +111,31 @@ theorem rt_is_spec_tree_partial (cfg : X2WCfg) (t : Tree) (bs : Bytes) (lang : L
   rw [hp, hres, hev]
   rfl
 
+/-- **Round trip at the level of parser events** (`_partial`: plain trees of plain languages, see
+    `C06.denotes_source_partial`): what the library's own parser — as `wbxml_tree_from_wbxml` runs
+    it — delivers on the encoder's output has exactly the XML-level view of the source tree:
+    same element nesting and names, same attributes with the same values in the same order, same
+    character data after `normText` (white space trimmed / white-space-only text dropped unless
+    kept, C-string reading, SyncML media-type rewriting). -/
+theorem rt_events_view_partial (cfg : X2WCfg) (t : Tree) (bs : Bytes) (lang : Lang) (r : Node)
+    (hlang : t.lang = some lang) (hroot : t.root = some r)
+    (hl : langOk lang = true) (hover : treeOver lang t = true) (h : treeToWbxml cfg t = .ok bs)
+    (hpn : plainNode r = true) (hpl : plainLang lang = true) (hnta : noTypedAttr lang.id = true)
+    (hvs : valSemOk lang = true) (has : attrSemOk lang = true) (hts : tagSemOk lang = true)
+    (han : attrNameSemOk lang = true) :
+    ∃ d : Doc, bs = Spec.ser d ∧
+      ∀ (main : List Lang) (forced metaCs : Nat),
+        headerLang (pcfgOf main forced metaCs) d.hdr = some lang →
+        (headerCharset (pcfgOf main forced metaCs) d.hdr = 3 ∨ headerCharset (pcfgOf main forced metaCs) d.hdr = 106) →
+        cfg.version < 256 → bs.length < 4294967296 →
+        (parse (pcfgOf main forced metaCs) bs).result = .ok () ∧
+        (parse (pcfgOf main forced metaCs) bs).events.flatMap toks = srcToks (dcfgOf cfg lang) r := by
+  obtain ⟨d, hs, hk⟩ := C06.denotes_source_partial cfg t bs lang r hlang hroot hl hover h hpn hpl hnta hvs has hts han
+  refine ⟨d, hs, ?_⟩
+  intro main forced metaCs h1 h2 h3 h4
+  obtain ⟨_, r1, _, r3⟩ := hk (pcfgOf main forced metaCs) h1 h2 (charsets_ok main forced metaCs _ h2) h3 h4
+  exact ⟨r1, r3⟩
+
 /-! ## Non-vacuity -/
 
 /-- The round trip of C06's example tree under the library's table: accepted, same language,
@@ -139,19 +156,20 @@ example : headerLang (pcfgOf Gen.main 0 0) Props.C04.exSyncml.hdr = some Gen.lan
       rt_preserves : accepted cfg t → treeOfWbxml main fuel 0 0 (treeToWbxml cfg t) = .ok (norm cfg t)
 
   With `rt_is_spec_tree_partial` the left side is `treeOfEvents … (Spec.events pcfg d)` for the `d`
-  the encoder wrote. Still to be proved, each a separate lemma over the same induction as
-  `Lemmas.EncW.encNode_seg` (whose `Seg` would gain a field "`(evItems ctx own pg items).1` =
-  events of the normalised node"):
-    1. value splitting preserves the concatenation (`splitPass` cuts a string into
-       `take idx`, the needle's token / reference, `drop (idx + |needle|)`; `Spec.strAt tbl off`
-       at an entry start is the entry when the entry is NUL-free);
-    2. `tagRow`/`attrRow` (first row with the page and token) against the row the encoder used:
-       C08's `tagDecEnc` / `attrDecEnc` give the first alias, which is the "earlier alias"
-       normalisation;
-    3. typed content (`opqsDoc d ≠ []`): C12's round-trip laws as side conditions per opaque, and
-       the known findings listed at `C06.enc_is_ser_wf_partial` as exclusions;
-    4. the builder merging adjacent `chars` events (`addKid`) so that the pieces of one text node
-       become one text node again.
+  the encoder wrote, and `rt_events_view_partial` says what those events are for plain trees of plain
+  languages (value splitting keeps the concatenation, names and value prefixes are resolved to the
+  rows the encoder used, `Lemmas.EncW.encNode_seg` / `ViewN`). Still to be proved:
+    1. the builder (`buildStep`, `addKid`) over a balanced event list yields a tree whose view is the
+       events' view — including its SyncML special cases (`syncmlDataType`: character data of a
+       `Data` element may become a CDATA node or, when `Type` says `+wbxml` and the text happens to
+       parse, an embedded tree);
+    2. the "earlier alias" normalisation for ActiveSync (`tagSemOk` fails there: two names share a
+       token; C08's `tagDecEnc` gives the first alias);
+    3. typed content (`opqsDoc d ≠ []`: Wireless Village, DRMREL, SI, EMN, OTA, `NextNonce`): C12's
+       round-trip laws as side conditions per opaque, the known findings listed at
+       `C06.enc_is_ser_wf_partial` as exclusions;
+    4. CDATA sections and embedded documents in the source tree (written as OPAQUE; the reader's
+       view needs the nested document's own `denotes_source`).
 -/
 
 end Wbxml.Props.C03
